@@ -149,7 +149,7 @@ def run(ctx):
         H.shutdown()
 
     ctx.rule = ('configurations = {asyncio,twisted close()} x authenticator {none, PlainTextAuthenticator, credentials dict} x compression '
-                '{True, False, lz4, snappy, zstd} x local codecs {[], [lz4], [snappy], [lz4,snappy], [snappy,lz4]} x versions {1,2,3,4,5,6,65,66} (thorough: {1,2,4,5,6,65}); '
+                '{True, False, lz4, snappy, zstd} x local codecs {[], [lz4], [snappy], [lz4,snappy], [snappy,lz4]} x versions {1,2,3,4,5,6,65,66}; '
                 'replies from {SUPPORTED(9 option lists), READY, AUTHENTICATE, AUTH_CHALLENGE good/bad, AUTH_SUCCESS, ERROR bad-credentials/server/'
                 'protocol, RESULT, disconnect, socket error}; thorough: every sequence of length <= 5 up to the reply that decides the connect attempt, '
                 'plus every extension of a decided attempt by READY/AUTH_SUCCESS/disconnect/socket error; quick: 80 random configurations x 25 '
@@ -199,7 +199,7 @@ def run(ctx):
 
 
 def replay(ctx, rp):
-    case = rp.get('case') or {}
+    case = rp.get('case') or ({'cfg': rp['cfg'], 'local': rp['local'], 'replies': rp['replies']} if 'cfg' in rp else {})   # replay file or corpus file
     if not case.get('replies') and not case.get('cfg'):
         print('nothing to replay: %s' % rp.get('theorem'))
         return 1
